@@ -396,14 +396,31 @@ func (w *World) snapshotFaultChecks(everyByteBelow, samples int) {
 					tp = &TxnProg{Ops: []Op{{Kind: "insert", Writes: []Write{{Col: "expire", Val: Val{U: uint64(1000 + i)}}}}}}
 				}
 			}
-			w.runTxn(tp, true)
+			good := NewSimFile()
+			var serr error
+			_, pv, frame, hung := guarded(20*time.Second, func() error {
+				w.runTxn(tp, true)
+				if w.viol == nil {
+					serr = w.primary.Snapshot(good)
+				}
+				return nil
+			})
+			if hung {
+				w.taint = true
+				w.viol = nil
+				w.fail(violation("after-failed-snapshot/hang", "after a Snapshot in which %s (err=%v), the next transaction or snapshot did not return within 20s (a latch or lock was left held)", pl.what, err))
+				return
+			}
+			if pv != nil {
+				w.fail(violation("after-failed-snapshot/panic/"+frame, "after a Snapshot in which %s: %v", pl.what, pv))
+				return
+			}
 			if w.viol != nil {
 				w.viol.Sig = "after-failed-snapshot/" + w.viol.Sig
 				return
 			}
-			good := NewSimFile()
-			if err := w.primary.Snapshot(good); err != nil {
-				w.fail(violation("after-failed-snapshot/snapshot-error", "after a Snapshot in which %s, a Snapshot to a healthy writer returned %v", pl.what, err))
+			if serr != nil {
+				w.fail(violation("after-failed-snapshot/snapshot-error", "after a Snapshot in which %s, a Snapshot to a healthy writer returned %v", pl.what, serr))
 				return
 			}
 			fresh := w.newCollection(nil)
